@@ -29,13 +29,14 @@ func init() {
 // rangeSizesZS: sizes of the "fstreezs" kind - zstd-compressed objects whose payload is only half compressible, so that
 // the STORED form is larger than the 20 KiB header buffer (the periodic payload of the other kinds compresses to
 // a few hundred bytes); the largest one outruns the decoder's read-ahead
-var rangeSizesZS = []int{160000, 262144 + 77, 1600<<10 + 13}
+var rangeSizesZS = []int{400000 + 77, 800000, 1600<<10 + 13}
 
-// semiPayload: alternating 32-byte runs of hash bytes and of a short period (kept in step with Model/Range.lean).
+// semiPayload: one 32-byte run of hash bytes in every 256 bytes of a short period: a 128 KiB zstd block of it is SHORTER than the
+// 20 KiB header buffer while the whole stored form is longer (kept in step with Model/Range.lean).
 func semiPayload(size, seed int) []byte {
 	b := make([]byte, size)
 	for i := range b {
-		if (i>>5)&1 == 0 {
+		if (i>>5)&7 == 0 {
 			b[i] = byte((uint32(i)*2654435761 + uint32(seed)*97) >> 16)
 		} else {
 			b[i] = byte((i*7 + seed) % 251)
